@@ -4,6 +4,7 @@ from contracts import loaders as L
 
 from contracts import wrappers as W
 from contracts import loaders as LD
+from contracts import core as K
 ID = "C06"
 LEVEL = "proof"
 TRUSTED = ["A1 real arithmetic (algebra units)", "A6 solvers",
@@ -17,13 +18,14 @@ EXPLANATION = ("Closed obligations (eval, exhaustive): every element and isotope
 
 
 def units(tier):
-    return ((([D.U_DENSITY_EL, D.U_DENSITY_ISO] + D.U_NUMBER_DENSITY + D.U_INTERATOMIC + L.U_MASS_ABUNDANCE_LOOP) + W.U_MASS_GETTERS) + LD.U_DENSITY_ROW) + LD.U_MASS_TAIL + [LD.U_MASS_ISOTOPE_ROW] + LD.U_MASS_ELEMENT_ROW
+    return (((([D.U_DENSITY_EL, D.U_DENSITY_ISO] + D.U_NUMBER_DENSITY + D.U_INTERATOMIC + L.U_MASS_ABUNDANCE_LOOP) + W.U_MASS_GETTERS) + LD.U_DENSITY_ROW) + LD.U_MASS_TAIL + [LD.U_MASS_ISOTOPE_ROW] + LD.U_MASS_ELEMENT_ROW) + [K.L_LOADER_MARKS]
 
 
 def runner_tasks(tier):
     return [{"module": "c06", "task": "eval_tables", "kind": "eval", "clause": "served values vs embedded tables, both tables"},
             {"module": "c06", "task": "density_algebra", "kind": "eval", "clause": "isotope density, number density, distance; all atoms"},
-            {"module": "c06", "task": "parse_uncertainty_cells", "kind": "bounded", "clause": "notations: all table cells (complete) + synthetic strings (bounded)"}]
+            {"module": "c06", "task": "parse_uncertainty_cells", "kind": "bounded", "clause": "notations: all table cells (complete) + synthetic strings (bounded)"},
+            {"module": "stateful", "task": "C06", "name": "stateful C06", "kind": "bounded", "clause": "a private table serves the embedded values whatever other data module was initialised on it first"}]
 
 
 REPLAY = {"module": "c06", "task": "replay"}
